@@ -8,6 +8,9 @@
 -/
 import JoinModel.Props.Common
 import JoinModel.Templates
+import JoinModel.Lemmas.TokCount
+import JoinModel.Lemmas.ParseInit
+import JoinModel.Props.C17
 namespace JoinModel.Props.C10
 open JoinModel JoinModel.Props
 
@@ -71,181 +74,75 @@ theorem inspect_helper_body :
     Templates.fnInspect.getLast? = some (brace [Var.h.tok, paren [pu '&', Var.v.tok], pu ';', Var.v.tok]) := by
   simp [Templates.fnInspect, brace, paren, pu]
 
-/-! ### nothing dropped, nothing duplicated: one action at token level -/
-
-mutual
-  /-- occurrences of the identifier `s`, at any nesting depth -/
-  def cntTT (s : String) : TT → Nat
-    | .ident x => if x = s then 1 else 0
-    | .group _ ts => cntToks s ts
-    | _ => 0
-  def cntToks (s : String) : List TT → Nat
-    | [] => 0
-    | t :: ts => cntTT s t + cntToks s ts
-end
-
-theorem cntToks_append (s : String) (a b : Toks) : cntToks s (a ++ b) = cntToks s a + cntToks s b := by
-  induction a with
-  | nil => simp [cntToks]
-  | cons t a ih => simp [cntToks, ih, Nat.add_assoc]
-
-mutual
-  /-- occurrences of `s` among the literal tokens of a template -/
-  def litCount (s : String) : List TmplTok → Nat
-    | [] => 0
-    | t :: ts => litCountTok s t + litCount s ts
-  def litCountTok (s : String) : TmplTok → Nat
-    | .tok t => cntTT s t
-    | .hole _ => 0
-    | .group _ ts => litCount s ts
-end
-
-mutual
-  /-- the operand holes of a template, in the order they are written -/
-  def holesOf : List TmplTok → List Nat
-    | [] => []
-    | t :: ts => holesOfTok t ++ holesOf ts
-  def holesOfTok : TmplTok → List Nat
-    | .tok _ => []
-    | .hole i => [i]
-    | .group _ ts => holesOf ts
-end
-
-def sumList : List Nat → Nat
-  | [] => 0
-  | x :: xs => x + sumList xs
-
-theorem sumList_append (a b : List Nat) : sumList (a ++ b) = sumList a + sumList b := by
-  induction a with
-  | nil => simp [sumList]
-  | cons x a ih => simp [sumList, ih, Nat.add_assoc]
-
-mutual
-  theorem instTmpl_count (s : String) (t : List TmplTok) (ops : List Toks) (r : Toks) (h : instTmpl t ops = some r) :
-      cntToks s r = litCount s t + sumList ((holesOf t).map fun i => cntToks s ((ops[i]?).getD [])) := by
-    cases t with
-    | nil => simp [instTmpl] at h; subst h; simp [cntToks, litCount, holesOf, sumList]
-    | cons x xs =>
-      simp only [instTmpl] at h
-      cases ha : instTmplTok x ops with
-      | none => simp [ha] at h
-      | some a =>
-        cases hb : instTmpl xs ops with
-        | none => simp [ha, hb] at h
-        | some b =>
-          simp [ha, hb] at h
-          subst h
-          rw [cntToks_append, instTmplTok_count s x ops a ha, instTmpl_count s xs ops b hb]
-          simp only [litCount, holesOf, List.map_append, sumList_append]
-          omega
-  theorem instTmplTok_count (s : String) (t : TmplTok) (ops : List Toks) (r : Toks) (h : instTmplTok t ops = some r) :
-      cntToks s r = litCountTok s t + sumList ((holesOfTok t).map fun i => cntToks s ((ops[i]?).getD [])) := by
-    cases t with
-    | tok x => simp [instTmplTok] at h; subst h; simp [cntToks, litCountTok, holesOfTok, sumList]
-    | hole i =>
-      simp only [instTmplTok] at h
-      simp [litCountTok, holesOfTok, sumList, h]
-    | group d ts =>
-      simp only [instTmplTok] at h
-      cases hi : instTmpl ts ops with
-      | none => simp [hi] at h
-      | some inner =>
-        simp [hi] at h
-        subst h
-        have := instTmpl_count s ts ops inner hi
-        simp [cntToks, cntTT, litCountTok, holesOfTok, this]
-end
+/-! ### nothing dropped, nothing duplicated: one action at token level
+    (the counting functions `cntToks`, `litCount`, `holesOf`, `sumList` and the proofs are in Lemmas/TokCount.lean) -/
 
 /-- **Every emission template uses each of its operands exactly once** (table theorem over the templates observed from
     the running `ToTokens` implementations): the holes of the template for `n` operands are `0, …, n-1`. -/
 theorem templates_linear :
-    ∀ row ∈ Tables.emit, ∀ t, row.2.2 = some t → holesOf t = List.range row.2.1 := by
-  decide
-
-/-- an identifier the macro's own templates never write -/
-def UserIdent (s : String) : Prop := ∀ row ∈ Tables.emit, ∀ t, row.2.2 = some t → litCount s t = 0
-
-theorem sum_range_ops (s : String) (ops : List Toks) :
-    sumList ((List.range ops.length).map fun i => cntToks s ((ops[i]?).getD [])) = sumList (ops.map (cntToks s)) := by
-  induction ops with
-  | nil => rfl
-  | cons o ops ih =>
-    rw [List.length_cons, List.range_succ_eq_map]
-    simp only [List.map_cons, List.map_map, sumList, List.getElem?_cons_zero, Option.getD_some]
-    have : ((fun i => cntToks s (((o :: ops)[i]?).getD [])) ∘ Nat.succ) = fun i => cntToks s ((ops[i]?).getD []) := by
-      funext i; simp
-    rw [this, ih]
+    ∀ row ∈ Tables.emit, ∀ t, row.2.2 = some t → holesOf t = List.range row.2.1 := templates_linear_tbl
 
 /-- **The method call of an operator contains each operand's tokens exactly once**, and nothing else a user could have
     written: for every constructor, every operand list and every identifier `s` that is not a template word. -/
 theorem emit_conserves_tokens (s : String) (hs : UserIdent s) (c : Comb) (ops : List Toks) (r : Toks)
-    (h : emitTokens c ops = .ok r) : cntToks s r = sumList (ops.map (cntToks s)) := by
-  unfold emitTokens at h
-  split at h
-  · rename_i t hrow
-    split at h
-    · rename_i r' hinst
-      cases h
-      simp only [emitRow] at hrow
-      obtain ⟨row, hfind, hrow2⟩ := Option.map_eq_some_iff.mp hrow
-      have hmem := List.mem_of_find?_eq_some hfind
-      have hp := List.find?_some hfind
-      simp only [Bool.and_eq_true, beq_iff_eq] at hp
-      have hlin := templates_linear row hmem t hrow2
-      have hlit := hs row hmem t hrow2
-      rw [instTmpl_count s t ops _ hinst, hlit, hlin, hp.2, Nat.zero_add, sum_range_ops]
-    · cases h
-  · cases h
-
-theorem zipIdx_map_fst_fun {α β} (f : α → β) (l : List α) (n : Nat) :
-    (l.zipIdx n).map (fun oi => f oi.1) = l.map f := by
-  induction l generalizing n with
-  | nil => rfl
-  | cons a l ih => simp [List.zipIdx_cons, ih]
+    (h : emitTokens c ops = .ok r) : cntToks s r = sumList (ops.map (cntToks s)) := emit_conserves s hs c ops r h
 
 /-- hoisting a member's block operands moves their tokens into the definitions and leaves a generated name behind:
     no user token is lost or duplicated -/
 theorem hoist_conserves_tokens (s : String) (hs : ∀ b e i, (Var.ew b e i).render ≠ s) (b e : Nat) (m : Member) :
     sumList ((hoist b e m).1.map fun d => cntToks s d.toks) + sumList ((hoist b e m).2.map (cntToks s)) =
-      sumList (m.ops.map fun o => cntToks s o.toks) := by
-  unfold hoist
-  split
-  · have key : ∀ (l : List (Operand × Nat)),
-        sumList ((l.filterMap fun (x : Operand × Nat) =>
-            if x.1.kind = .block then some (⟨b, e, x.2, x.1.toks⟩ : CapDef) else none).map fun d => cntToks s d.toks) +
-          sumList ((l.map fun (x : Operand × Nat) =>
-            if x.1.kind = .block then [(Var.ew b e x.2).tok] else x.1.toks).map (cntToks s)) =
-        sumList (l.map fun oi => cntToks s oi.1.toks) := by
-      intro l
-      induction l with
-      | nil => rfl
-      | cons oi l ih =>
-        by_cases hk : oi.1.kind = .block
-        · have hname : cntToks s [(Var.ew b e oi.2).tok] = 0 := by
-            simp [cntToks, cntTT, Var.tok, hs b e oi.2]
-          simp only [List.filterMap_cons, hk, if_true, List.map_cons, sumList, hname]
-          omega
-        · simp only [List.filterMap_cons, hk, if_false, List.map_cons, sumList]
-          omega
-    have e1 : (fun (x : Operand × Nat) =>
-        match x with
-        | (o, i) => if o.kind = .block then some (⟨b, e, i, o.toks⟩ : CapDef) else none) =
-        fun x => if x.1.kind = .block then some (⟨b, e, x.2, x.1.toks⟩ : CapDef) else none := by
-      funext x; obtain ⟨o, i⟩ := x; rfl
-    have e2 : (fun (x : Operand × Nat) =>
-        match x with
-        | (o, i) => if o.kind = .block then [(Var.ew b e i).tok] else o.toks) =
-        fun x => if x.1.kind = .block then [(Var.ew b e x.2).tok] else x.1.toks := by
-      funext x; obtain ⟨o, i⟩ := x; rfl
-    have h2 : sumList (m.ops.map fun o => cntToks s o.toks) = sumList (m.ops.zipIdx.map fun oi => cntToks s oi.1.toks) := by
-      rw [zipIdx_map_fst_fun (fun (o : Operand) => cntToks s o.toks)]
-    rw [h2, e1, e2]
-    exact key _
-  · simp [sumList, List.map_map, Function.comp_def]
+      sumList (m.ops.map fun o => cntToks s o.toks) := hoist_conserves s hs b e m
+
+/-! ### nothing dropped, nothing duplicated: the whole program -/
+
+/-- **Every user token of every operand of the program occurs exactly once in the generated steps** — in a hoisted
+    definition `let __ew… = {…};` or in a chain expression — for every program the generator accepts, every macro kind,
+    any number of branches, steps, wrappers (`>>>`/`<<<`, closed explicitly or by the end of the step) and block
+    operands.  `s` is any identifier that is not a word the generator writes itself (`Marker`) nor one of the program's
+    `let` names; `stepsCount` adds up the occurrences of `s` in the definitions and chains of all steps, `cntProgram`
+    those in the operands of all members (a `>>>` member's placeholder closure and a `<<<` member carry none).
+    `InitialOnlyFirst`: the initial value stands only in front of a branch (what the parser builds:
+    `accepted_conserves_tokens`). -/
+theorem gen_conserves_tokens (s : String) (hm : Marker s) (p : Input) (kind : Kind) (code : Code)
+    (h : gen p kind = .ok code) (hinit : InitialOnlyFirst p)
+    (hnames : ∀ b ∈ p.branches, ∀ pt, b.pat = some pt → pt.ident ≠ s) :
+    stepsCount s code.steps = cntProgram s p ∧ code.handlerDef = p.handler.map (·.2) := by
+  refine ⟨gen_count hm p kind code h hinit hnames, ?_⟩
+  unfold gen at h
+  repeat' split at h
+  all_goals first | (cases h; rfl) | cases h
+
+/-- …and from the tokens the caller wrote: whatever the parser accepts (any behaviour of syn) and the generator expands. -/
+theorem accepted_conserves_tokens (o : Oracle) (toks : Toks) (s : String) (hm : Marker s) (p : Input) (kind : Kind)
+    (code : Code) (hparse : parseMacroInput o toks = .ok p) (h : gen p kind = .ok code)
+    (hnames : ∀ b ∈ p.branches, ∀ pt, b.pat = some pt → pt.ident ≠ s) :
+    stepsCount s code.steps = cntProgram s p :=
+  (gen_conserves_tokens s hm p kind code h (parse_initial_only_first o toks p hparse) hnames).1
+
+instance (s : String) : Decidable (UserIdent s) := by unfold UserIdent; infer_instance
+
+/-- Non-vacuity of `Marker`: `user_marker` is no template word, none of the generator's own words, and no internal name
+    (those start with `__`, Props/C17). -/
+theorem marker_example : Marker "user_marker" := by
+  refine ⟨by decide, ?_, by decide, by decide, by decide⟩
+  intro v hv heq
+  obtain ⟨rest, hr⟩ := C17.internal_starts_with_underscores v hv
+  rw [heq] at hr
+  simp at hr
+
+/-- …and of the conclusion: `a |> user_marker, { user_marker } ~=> >>> |> user_marker` keeps its three occurrences (one of
+    them hoisted, one inside a wrapper closed by the end of its step). -/
+example :
+    let um : Toks := [.ident "user_marker"]
+    let p : Input := { branches := [⟨none, [⟨.initial, false, .none, [⟨.expr, [.ident "a"]⟩]⟩, ⟨.map, false, .none, [⟨.expr, um⟩]⟩]⟩,
+      ⟨none, [⟨.initial, false, .none, [⟨.block, [brace um]⟩]⟩, ⟨.andThen, true, .wrap, [⟨.expr, Tables.wrapperPlaceholder⟩]⟩,
+              ⟨.map, false, .none, [⟨.expr, um⟩]⟩]⟩] }
+    cntProgram "user_marker" p = 3 ∧
+      (match gen p ⟨false, false, false⟩ with | .ok code => stepsCount "user_marker" code.steps | .error _ => 0) = 3 := by
+  decide
 
 /-- Non-vacuity of `UserIdent`: an identifier such as `user_marker` never occurs among the templates' own tokens, whereas
     `map` does (the template of `|>`): the hypothesis of `emit_conserves_tokens` holds for the former only. -/
-instance (s : String) : Decidable (UserIdent s) := by unfold UserIdent; infer_instance
 example : UserIdent "user_marker" := by decide
 example : ¬ UserIdent "map" := by decide
 
